@@ -203,5 +203,24 @@ pub fn dump() -> Value {
     // the SVG matrix emitter on a probe transform with six distinct entries
     let probe = Transform2::from(nalgebra::Matrix3::new(2., 3., 5., 7., 11., 13., 0., 0., 1.));
     let svg_text = format!("{}", probe.as_svg());
-    json!({ "groups": groups, "svg_probe": {"matrix_rows": [2,3,5,7,11,13], "text": svg_text} })
+    // the optimiser settings a bare command line and the library default stand for (Debug rendering of the
+    // private fields), and how the setters change them: each setter applied to the library default
+    use structopt::StructOpt;
+    let cli = packing::BuildOptimiser::from_iter_safe(vec!["x"]).map(|b| format!("{:?}", b)).unwrap_or_else(|e| format!("error: {}", e));
+    let lib = format!("{:?}", packing::BuildOptimiser::default());
+    let set = |f: &dyn Fn(&mut packing::BuildOptimiser)| { let mut b = packing::BuildOptimiser::default(); f(&mut b); format!("{:?}", b) };
+    let setters = json!({
+        "steps(7)": set(&|b| { b.steps(7); }),
+        "inner_steps(7)": set(&|b| { b.inner_steps(7); }),
+        "kt_start(0.5)": set(&|b| { b.kt_start(0.5); }),
+        "kt_finish(0.5)": set(&|b| { b.kt_finish(0.5); }),
+        "kt_ratio(Some(0.5))": set(&|b| { b.kt_ratio(Some(0.5)); }),
+        "kt_ratio(None)": set(&|b| { b.kt_ratio(Some(0.5)); b.kt_ratio(None); }),
+        "max_step_size(0.5)": set(&|b| { b.max_step_size(0.5); }),
+        "convergence(Some(0.5))": set(&|b| { b.convergence(Some(0.5)); }),
+        "convergence(None)": set(&|b| { b.convergence(Some(0.5)); b.convergence(None); }),
+        "seed(7)": set(&|b| { b.seed(7); }),
+    });
+    json!({ "groups": groups, "svg_probe": {"matrix_rows": [2,3,5,7,11,13], "text": svg_text},
+            "builder_cli": cli, "builder_default": lib, "builder_setters": setters })
 }
